@@ -34,7 +34,8 @@ class Module:
         except SyntaxError as e:
             raise AnalysisError("syntax error in %s: %s" % (relpath, e),
                                 anchor=relpath)
-        from . import canon
+        from . import canon, normalize
+        self.normalized = normalize.apply(name, self.tree)
         self.renamed_locals = canon.apply(name, self.tree)
         self.imports = {}      # local alias -> dotted qualified name
         self.functions = {}    # top-level name -> FunctionInfo
